@@ -35,7 +35,12 @@ func vh_SAE() {
 	lease0 := r.operationManager.leaderLease
 	exp0 := lease0.expiration
 	// a linearizable read waiting for leadership confirmation
-	rd := &Operation{OperationType: LinearizableReadOnly, readIndex: r.commitIndex}
+	// heartbeat rounds are numbered; the read remembers how many had been started when it was submitted
+	round := vNondetU64("round")
+	rd := &Operation{OperationType: LinearizableReadOnly, readIndex: r.commitIndex, round: vNondetU64("read.round")}
+	r.operationManager.rounds = vNondetU64("rounds")
+	vAssume(vAnd(round >= 1, round <= r.operationManager.rounds))
+	vAssume(vAnd(rd.round <= r.operationManager.rounds, r.operationManager.rounds < vMaxIdx))
 	if r.state == Leader {
 		r.operationManager.pendingReadOnly[rd] = make(chan Result[OperationResponse], 1)
 	}
@@ -80,7 +85,7 @@ func vh_SAE() {
 		vAssume(resp.Index < vMaxIdx)
 		return resp, nil
 	}
-	r.sendAppendEntries(target, "addr-"+target, cntp)
+	r.sendAppendEntries(target, "addr-"+target, cntp, round)
 	vDrain()
 	vAssert(!vHeld(&r.mu), "C18|C20.lock-released")
 	if sent == nil {
@@ -133,6 +138,7 @@ func vh_SAE() {
 	if rd.quorumVerified {
 		vCover("read-verified")
 		vAssert(cntp != nil, "C05.verification-needs-a-live-round")
+		vAssert(rd.round < round, "C05.verifying-round-started-after-the-read-was-submitted")
 		vAssert(2*cnt > nv, "C05|C09|C17.verification-needs-majority-of-voters")
 		vAssert(vAnd(post.term == sent.Term, mid.state == Leader), "C05|C17.verification-only-in-the-term-of-the-round")
 	}
